@@ -91,6 +91,38 @@ theorem C15_precedence (vdefs : List VarDef) (defs : List ArgDef) (args : List A
   simp only [argumentMap, arg2map] at h
   exact arg2mapLoop_spec hsup hargs defs .nil m hnodup hdefs (fun _ _ => rfl) h
 
+/-- C15 for the operation being EXECUTED: `linked` are the variable definitions the value nodes
+    are linked to, `opDefs` the variable definitions of the operation whose coerced variables are
+    passed.  With the EXPLICIT hypothesis `LinksAgree linked opDefs` (true in every single-operation
+    document, and whenever no other operation spreading the same fragment declares a variable of
+    the same name with a different default) every declared argument gets the value the
+    specification prescribes for the executed operation. -/
+theorem C15_precedence_linked (linked opDefs : List VarDef) (defs : List ArgDef) (args : List Argument) (vars m : VarMap)
+    (hlinks : LinksAgree linked opDefs)
+    (hnodup : (defs.map (·.name)).Nodup)
+    (hargs : ∀ a ∈ args, wellLexedB a.value = true)
+    (hdefs : ∀ d ∈ defs, ∀ dv, d.default = some dv → wellLexedB dv = true)
+    (hsup : DefaultsSupplied opDefs vars)
+    (h : argumentMap linked (some defs) args vars = .ok m) :
+    ∀ d ∈ defs, argValueSpec opDefs args vars d = (m.lookup d.name).map some := by
+  have hsup' : DefaultsSupplied linked vars := by
+    intro n d hf hd
+    have hl := hlinks n
+    rw [hf] at hl
+    cases hd' : d.default with
+    | none => simp [hd'] at hd
+    | some dv =>
+      simp only [Option.bind, hd'] at hl
+      cases ho : findVarDef opDefs n with
+      | none => simp [ho] at hl
+      | some d2 =>
+        simp only [ho] at hl
+        exact hsup n d2 ho (by rw [← hl]; rfl)
+  intro d hd
+  have := C15_precedence linked defs args vars m hnodup hargs hdefs hsup' h d hd
+  rw [← this]
+  simp only [argValueSpec, varDefaultSpec_congr hlinks]
+
 /-- Without `DefaultsSupplied` the statement fails: a variable written as the whole argument and
     missing from the map falls through to the ARGUMENT's default, skipping the variable's default
     (harmless after coercion, which enters the variable's default into the map). -/
@@ -102,7 +134,8 @@ theorem C15_precedence_counterexample_unsupplied_default :
     ∧ argValueSpec vdefs args .nil (argDef "x" (named "Int") (some (lit .int "2"))) = some (some (.int .int64 1)) := by
   constructor <;> rfl
 
-/-- FINDING (cross-operation default leak).  `Value.VariableDefinition` of a variable inside a
+/-- KNOWN FINDING, not repaired (cross-operation default leak; a repair needs an operation
+    parameter on `ArgumentMap`).  The hypothesis `LinksAgree` of `C15_precedence_linked` is needed.  `Value.VariableDefinition` of a variable inside a
     fragment is the definition of the LAST operation that spreads the fragment.  Executing
     `query A($v: Int) { ...F }` with no variables while `query B($v: Int = 2) { ...F }` exists,
     `fragment F on Query { f(l: [$v]) }`: the link is B's definition, so the code yields `[2]`, whereas
@@ -113,8 +146,12 @@ theorem C15_precedence_counterexample_linked_default :
     let defs := [argDef "l" (listOf (named "Int"))]
     let args := [arg "l" (.mk .list [] (.cons [] (lit .variable "v") Pos.zero .nil) Pos.zero)]
     argumentMap defB (some defs) args .nil = .ok (.cons (str "l") (.slice .iface (.cons (.int .int64 2) .nil)) .nil)
-    ∧ argSpec defA defs args .nil = some (.cons (str "l") (.slice .iface (.cons .nil .nil)) .nil) := by
-  constructor <;> rfl
+    ∧ argSpec defA defs args .nil = some (.cons (str "l") (.slice .iface (.cons .nil .nil)) .nil)
+    ∧ ¬ LinksAgree defB defA := by
+  refine ⟨by rfl, by rfl, ?_⟩
+  intro h
+  have := h (str "v")
+  simp [findVarDef, Option.bind] at this
 
 /- non-vacuity: the hypotheses of C15_total / C15_precedence are satisfiable and the conclusion is
    not the empty map -/
